@@ -332,6 +332,13 @@ def r2(ctx):
     e = pn.local(0)
     starts = [x for x in walk(e) if x[0] == "agg" and x[1].endswith("ClosestBucketsIterState::Start")]
     ok = bool(starts)
+    # every way of building the iterator begins in Start (any other initial state treats a bucket as already visited and never yields it)
+    built = [x for x in walk(e) if x[0] == "agg" and x[1].endswith("ClosestBucketsIter::ClosestBucketsIter")]
+    for bx in built:
+        for st0 in roots(dict(bx[2]).get("state", ("unknown", ""))):
+            if not (st0[0] == "agg" and st0[1].endswith("ClosestBucketsIterState::Start")):
+                ok = False
+    ok = ok and bool(built)
     for st in starts:
         for x in roots(st[2][0][1]):
             s_ = fmt_short(x)
